@@ -13,12 +13,12 @@ Definition kshift (B : Z) (s : sections) : sections := map (fun kv => (fst kv + 
 
 (* the value set_memory returns on an invariant state *)
 Lemma set_memory_eq (s : sections) ad data (p : P) :
-  wf 0 s -> 0 <= ad -> ad + len data < U64 -> 0 < len data ->
+  wf 0 s -> 0 <= ad -> ad + len data <= U64 -> 0 < len data ->
   set_memory s ad data p = Ok (bt_insert (adjust ad (len data) s) ad (data, p)).
 Proof.
   intros W A B L. rewrite set_memory_nonempty by assumption.
   assert (Hl : loop ad (len data) ([] ++ s) (snap s) = Ok ([] ++ adjust ad (len data) s)).
-  { eapply loop_adjust; try eassumption. constructor. }
+  { eapply loop_adjust with (lo := 0); first [assumption | lia | constructor]. }
   cbn [app] in Hl. rewrite Hl. reflexivity.
 Qed.
 
@@ -53,7 +53,7 @@ Qed.
 
 (* [U] translation invariance on invariant states *)
 Theorem set_memory_shift B (s : sections) ad data (p : P) :
-  wf 0 s -> wf 0 (kshift B s) -> 0 <= ad -> 0 <= ad + B -> ad + len data < U64 -> ad + B + len data < U64 ->
+  wf 0 s -> wf 0 (kshift B s) -> 0 <= ad -> 0 <= ad + B -> ad + len data <= U64 -> ad + B + len data <= U64 ->
   exists s', set_memory s ad data p = Ok s' /\ set_memory (kshift B s) (ad + B) data p = Ok (kshift B s').
 Proof.
   intros W WB A AB E EB. destruct (Z.eq_dec (len data) 0) as [Z0|NZ].
